@@ -2,7 +2,7 @@
 """Print the markdown table of DESIGN.md section 10.2 from /verif/seeded/<id>/meta.json."""
 import glob, json, os, sys
 rows=[]
-pattern='/verif/seeded/c[0-9][0-9]-'+sys.argv[1] if len(sys.argv)>1 and sys.argv[1] in ('b','c') else '/verif/seeded/c[0-9][0-9]'
+pattern='/verif/seeded/c[0-9][0-9]-'+sys.argv[1] if len(sys.argv)>1 and sys.argv[1] in ('b','c','d') else '/verif/seeded/c[0-9][0-9]'
 for d in sorted(glob.glob(pattern)):
     m=json.load(open(d+'/meta.json'))
     sid=os.path.basename(d)
